@@ -373,13 +373,10 @@ func (dn *dirNode) size() int64 {
 
 // fileNode
 
-// delete removes all information from the node, decrements the reference counter of the fileNode.
-// If there is no more references, the data is deleted.
+// delete decrements the reference counter of the fileNode.
+// The data is kept for the files still open on the node, it is released with the node by the garbage collector.
 func (fn *fileNode) delete() {
 	fn.nlink--
-	if fn.nlink == 0 {
-		fn.data = nil
-	}
 }
 
 // fillStatFrom returns a MemInfo (implementation of fs.FileInfo) from a fileNode fn named name.
